@@ -59,6 +59,23 @@
 (*     - and the next replacement still "changes what later handshakes     *)
 (*     see" (negative control "deaf": after a failed reload the server     *)
 (*     does not react to reload requests any more).                        *)
+(*     RETURNING CLIENTS THAT RESUME.  A client that keeps its TLS state   *)
+(*     across connections holds TICKETS (TLS 1.3 tickets, TLS 1.2 session  *)
+(*     ids): each was issued by an admitted handshake under one server     *)
+(*     configuration (identity `ver`, client-CA generation `gen`) and      *)
+(*     carries the peer certificates of THAT handshake.  A later connect   *)
+(*     may OFFER tickets; a server that honours one shortcuts: no          *)
+(*     certificate is exchanged, nobody is judged again, both ends report  *)
+(*     the certificates stored with the session.  "changes what later      *)
+(*     handshakes see" and "authenticated exactly as configured" speak of  *)
+(*     EVERY later handshake, whether or not it offers a ticket: a ticket  *)
+(*     may be honoured only if the configuration in force issued it (then  *)
+(*     the shortcut changes nothing: same identity, same judgement);       *)
+(*     a ticket from before a reload is worth nothing -> ConnectWith,      *)
+(*     Honours, Fresh, Authenticated, JudgedAsConfigured (now over every   *)
+(*     offer a client could make), TicketsOfThisConfiguration (negative    *)
+(*     control "sharedcache": the server honours tickets of any earlier    *)
+(*     configuration, e.g. one session cache for the life of the process). *)
 (*                                                                         *)
 (* (c) Roots of the client replaced in place.  "validates against the      *)
 (*     roots the client was given": the roots are a FILE the client was    *)
@@ -137,8 +154,9 @@ ASSUME Counts ==
 (* generation g in force, a certificate of generation g is the cell's "trustedCA", one of any other            *)
 (* generation (retired, or not loaded yet) the cell's "otherCA".                                              *)
 CONSTANT Mode       \* "swap" (the property) | negative controls: "stale" | "inplace" | "disconnect" | "dropca" |
-                    \* "staleca" | "eagerca" | "deaf" | "staleroots"
-ASSUME Mode \in {"swap", "stale", "inplace", "disconnect", "dropca", "staleca", "eagerca", "deaf", "staleroots"}
+                    \* "staleca" | "eagerca" | "deaf" | "staleroots" | "sharedcache"
+ASSUME Mode \in {"swap", "stale", "inplace", "disconnect", "dropca", "staleca", "eagerca", "deaf", "staleroots",
+                 "sharedcache"}
 
 VARIABLES
   identityVersion,  \* the identity the operator installed last (number of reloads so far)
@@ -152,15 +170,19 @@ VARIABLES
   liveGen,          \* generation of the client CA in force for a handshake that starts now
   dueGen,           \* generation at the path at the last (re)load
   botched,          \* number of reload requests so far that failed (the files could not be loaded)
+  tickets,          \* the tickets clients hold: cc = the client (certificate) that holds it, ver = the identity the issuing
+                    \* handshake was served with (the server certificate stored with the session), gen = the generation of the
+                    \* client CA in force then
   \* (c) the client side
   rootsGen,         \* generation of the roots file the client is pointed at
   rootsRead,        \* {} or {g}: the generation the client process read first (only "staleroots" looks at it)
   cseen             \* the client's connections so far: srv = who issued the server's certificate, roots = rootsGen
                     \* when it was made, ok = the client was satisfied
 
-svars == <<identityVersion, live, conns, wantCA, liveCA, wantGen, liveGen, dueGen, botched>>
+svars == <<identityVersion, live, conns, wantCA, liveCA, wantGen, liveGen, dueGen, botched, tickets>>
 cvars == <<rootsGen, rootsRead, cseen>>
-mvars == <<identityVersion, live, conns, wantCA, liveCA, wantGen, liveGen, dueGen, botched, rootsGen, rootsRead, cseen>>
+mvars == <<identityVersion, live, conns, wantCA, liveCA, wantGen, liveGen, dueGen, botched, tickets, rootsGen, rootsRead,
+           cseen>>
 
 CAOf(mtls) == IF mtls = TRUE THEN "configured" ELSE "none"
 
@@ -178,7 +200,7 @@ CellCert(cc, gen) == IF cc \in {"none", "otherCA"} THEN cc
 
 CInit == rootsGen = 0 /\ rootsRead = {} /\ cseen = <<>>
 MInitWith(ca) == /\ identityVersion = 0 /\ live = 0 /\ conns = <<>> /\ wantCA = ca /\ liveCA = ca
-                 /\ wantGen = 0 /\ liveGen = 0 /\ dueGen = 0 /\ botched = 0
+                 /\ wantGen = 0 /\ liveGen = 0 /\ dueGen = 0 /\ botched = 0 /\ tickets = {}
                  /\ CInit
 MInit == MInitWith("none")
 
@@ -195,15 +217,47 @@ Admitted(cc) == HandshakeOutcome(cc) = {"ok"}
 \* what the CONFIGURATION (as of the last reload) demands of that handshake
 DueOutcome(cc) == Expected(HandshakeCellG(cc, wantCA, dueGen))
 
-\* a client presenting cc connects: established iff the table says "ok"; a refused handshake leaves no trace
-ConnectAs(cc) ==
+\* ---- tickets ----
+\* the tickets the client `cc` holds (a client is identified with the certificate it presents; one that keeps no TLS
+\* state across connections - the application's own tls_connect - never holds any)
+Held(cc) == {t \in tickets : t.cc = cc}
+\* the server honours ticket t in a handshake that starts now.  The property: only the configuration in force can have
+\* issued a ticket that is worth anything (the identity serving now and the client CA in force now are the ticket's).
+\* (negative control "sharedcache": whatever an earlier configuration of this process issued is honoured)
+Honours(t) == IF Mode = "sharedcache" THEN TRUE ELSE t.ver = live /\ t.gen = liveGen
+Usable(offer) == {t \in offer : Honours(t)}
+\* what a handshake of `cc` offering the tickets `offer` that starts now must end in: a resumption is established without
+\* anybody being judged; otherwise the full handshake decides
+OutcomeWith(cc, offer) == IF Usable(offer) # {} THEN {"ok"} ELSE HandshakeOutcome(cc)
+AdmittedWith(cc, offer) == OutcomeWith(cc, offer) = {"ok"}
+TicketNow(cc) == [cc |-> cc, ver |-> live, gen |-> liveGen]
+
+\* A client presenting cc connects, offering the tickets `offer` (a subset of what it holds); keep = it keeps its TLS state
+\* (it will hold the tickets of this handshake afterwards).
+\*  - full handshake: established iff the table says "ok" (a refused handshake leaves no trace); the client sees the
+\*    identity serving now; the server MAY always decline a ticket and do this
+\*  - resumption with a ticket t the server honours: established; the client "sees" the server certificate stored with the
+\*    session (t.ver), the server does not look at the client's certificate again; the tickets issued by the resumed
+\*    session carry the same stored certificates (t itself)
+ConnectWith(cc, offer, keep) ==
   /\ cc \in Presentable
-  /\ conns' = IF Admitted(cc)
-              THEN Append(conns, [born |-> identityVersion, ver |-> live, cfg |-> live, alive |-> TRUE, cc |-> cc,
-                                  gen |-> dueGen])
-              ELSE conns
+  /\ offer \subseteq Held(cc)
+  /\ \/ /\ conns' = IF Admitted(cc)
+                     THEN Append(conns, [born |-> identityVersion, ver |-> live, cfg |-> live, alive |-> TRUE, cc |-> cc,
+                                         gen |-> dueGen])
+                     ELSE conns
+        /\ tickets' = IF Admitted(cc) /\ keep THEN tickets \cup {TicketNow(cc)} ELSE tickets
+     \/ \E t \in Usable(offer) :
+          /\ conns' = Append(conns, [born |-> identityVersion, ver |-> t.ver, cfg |-> t.ver, alive |-> TRUE, cc |-> cc,
+                                     gen |-> dueGen])
+          /\ tickets' = tickets
   /\ UNCHANGED <<identityVersion, live, wantCA, liveCA, wantGen, liveGen, dueGen, botched>>
   /\ UNCHANGED cvars
+
+\* a client that keeps no TLS state connects: it has nothing to offer and remembers nothing
+ConnectAs(cc) == ConnectWith(cc, {}, FALSE)
+\* a returning client connects: it offers what it holds and keeps what it gets
+ConnectReturning(cc) == ConnectWith(cc, Held(cc), TRUE)
 
 \* the client that was set up for this server connects (always admitted when the configuration is kept)
 Connect == ConnectAs(RightCert)
@@ -213,14 +267,14 @@ Rotate ==
   /\ wantCA = "configured"
   /\ wantGen' = wantGen + 1
   /\ liveGen' = IF Mode = "eagerca" THEN wantGen + 1 ELSE liveGen
-  /\ UNCHANGED <<identityVersion, live, conns, wantCA, liveCA, dueGen, botched>>
+  /\ UNCHANGED <<identityVersion, live, conns, wantCA, liveCA, dueGen, botched, tickets>>
   /\ UNCHANGED cvars
 
 \* a reload is requested while the files at the configured paths cannot be loaded (an incomplete renewal): nothing is
 \* replaced, the identity installed last keeps serving, established connections are not touched
 BotchedReload ==
   /\ botched' = botched + 1
-  /\ UNCHANGED <<identityVersion, live, conns, wantCA, liveCA, wantGen, liveGen, dueGen>>
+  /\ UNCHANGED <<identityVersion, live, conns, wantCA, liveCA, wantGen, liveGen, dueGen, tickets>>
   /\ UNCHANGED cvars
 
 \* (negative control "deaf": the first failed reload was the last one the server reacted to)
@@ -236,7 +290,8 @@ Reload ==
   /\ liveCA' = IF Mode = "dropca" THEN "none" ELSE liveCA
   /\ liveGen' = IF Mode = "staleca" \/ Deaf THEN liveGen ELSE wantGen
   /\ dueGen' = wantGen
-  /\ UNCHANGED <<wantCA, wantGen, botched>>
+  \* the clients keep what they hold; what it is worth afterwards is Honours'
+  /\ UNCHANGED <<wantCA, wantGen, botched, tickets>>
   /\ UNCHANGED cvars
 
 \* using an established connection changes nothing; what is observed: Works(c), Sees(c)
@@ -246,7 +301,8 @@ Sees(c) == conns[c].cfg
 
 \* a connection established before a reload keeps working and keeps seeing the old identity
 Undisturbed == \A c \in DOMAIN conns : Works(c) /\ Sees(c) = conns[c].ver
-\* a handshake after the reload sees the new identity
+\* a handshake after the reload sees the new identity - also a resumed one (its `ver` is the certificate stored with the
+\* session, which is what the client reports as the peer's)
 Fresh == \A c \in DOMAIN conns : conns[c].ver = conns[c].born
 \* new handshakes are authenticated as configured, whatever number of reloads happened
 ConfigKept == liveCA = wantCA
@@ -255,8 +311,12 @@ ConfigKept == liveCA = wantCA
 CAFollows == liveGen = dueGen
 \* observable form of ConfigKept /\ CAFollows: whoever connects now is judged as the configuration read at the last
 \* reload demands (a client of a retired generation is refused, one of the generation configured then is admitted)
-JudgedAsConfigured == \A cc \in Presentable : HandshakeOutcome(cc) = DueOutcome(cc)
-\* every established connection is one the CONFIGURATION in force when it handshook admits
+\* - WHATEVER tickets it offers
+JudgedAsConfigured == \A cc \in Presentable : \A offer \in SUBSET Held(cc) : OutcomeWith(cc, offer) = DueOutcome(cc)
+\* state form of the same for tickets: a ticket the server would honour now was issued by the configuration the
+\* operator installed last (identity and client-CA generation): resumption happens within one generation only
+TicketsOfThisConfiguration == \A t \in tickets : Honours(t) => (t.ver = identityVersion /\ t.gen = dueGen)
+\* every established connection - resumed or not - is one the CONFIGURATION in force when it handshook admits
 Authenticated == \A c \in DOMAIN conns : ServerAccepts(HandshakeCellG(conns[c].cc, wantCA, conns[c].gen))
 
 (* ------------------------------ (c) the client's roots replaced in place ------------------------------ *)
@@ -296,6 +356,7 @@ MTypeOK ==
   /\ wantCA = "none" => wantGen = 0
   /\ \A c \in DOMAIN conns : /\ conns[c].ver \in 0 .. identityVersion /\ conns[c].born \in 0 .. identityVersion
                              /\ conns[c].cc \in Presentable /\ conns[c].gen \in 0 .. dueGen
+  /\ \A t \in tickets : t.cc \in Presentable /\ t.ver \in 0 .. identityVersion /\ t.gen \in 0 .. wantGen
   /\ rootsGen \in Nat /\ rootsRead \subseteq 0 .. rootsGen
   /\ \A i \in DOMAIN cseen : cseen[i].srv \in CPresentable /\ cseen[i].roots \in 0 .. rootsGen /\ cseen[i].ok \in BOOLEAN
 =============================================================================
